@@ -24,14 +24,15 @@ import (
 	"github.com/go-openapi/runtime/middleware/untyped"
 
 	"verif/mon"
+	"verif/props/c07/accept"
 )
 
 func init() {
 	mon.Register(&mon.Property{
 		ID:    "C06",
 		Level: "exploration",
-		Rule: "seeded Swagger 2.0 descriptions with one body-taking operation per consumes-list shape (empty, concrete types, type/*, */*, entries with parameters, mixes; declared per operation or at spec level) x all 7 methods, " +
-			"API default media type present/absent, tagged consumers registered API-wide for (most of) a dozen concrete types and optionally for wildcard keys; requests with Content-Type drawn from: admitted (exactly / through the default / through an entry with parameters / through type/* / through */*), " +
+		Rule: "seeded Swagger 2.0 descriptions with one operation per consumes-list shape (empty, concrete types, type/*, */*, one or several entries with parameters, a bare type next to its parameterised spelling, mixes; declared per operation or at spec level; four operations in five declare a body parameter, one in five declares no parameter at all) x all 7 methods, " +
+			"API default media type present (plain or with parameters)/absent, Accept header absent / acceptable / admitting nothing the operation produces, tagged consumers registered API-wide for (most of) a dozen concrete types and optionally for wildcard keys; requests with Content-Type drawn from: admitted (exactly / through the default / through an entry with parameters / through type/* / through */*), " +
 			"non-admitted pool types, near misses of admitted types, literal wildcard types, absent, empty, malformed and grey-zone values, each spelled plain / with parameters / with OWS around ';' / in mixed letter case; body signalled by Content-Length (with and without the header line), " +
 			"by ContentLength=-1 (chunked), by a real Content-Length or chunked request over a loopback server, or absent (no body, Content-Length: 0, empty chunked stream). Every case is executed through both entry points (untyped pipeline via RoutesHandler, and Context.BindValidRequest with a RequestBinder that decodes with route.Consumer). " +
 			"oracle written from the statement: own RFC 7231 media-type classifier and own admission function. non-trivial = the request carries a body, or is body-less but carries a Content-Type that the gate would refuse; distinct by (consumes shape, default present, admission class, header kind+spelling, body signalling, method)",
@@ -41,7 +42,8 @@ func init() {
 			"header values whose type/subtype part is a valid token pair but whose parameter section is irregular (trailing ';', parameter without value, duplicate names, RFC 2231 continuations, quoted-pairs, '{' '}' in the type) are a grey zone: either 400 or the reading 'media type = part before the first ;' is accepted; only safety (no consumer/handler for a non-admitted type, right consumer) and agreement of the entry points are judged there",
 			"when no consumer is registered API-wide under the exact media type of an admitted request, the status is not judged (the statement presupposes a registered consumer); only 'no consumer other than a matching wildcard-key one ran' and agreement are judged",
 			"body presence is what the request signals: ContentLength>0, or unknown length (-1) with at least one readable byte; Content-Length: 0 and an empty chunked stream are body-less",
-			"the response format is never in play: requests carry no Accept header and every operation produces application/json",
+			"every operation produces application/json; an Accept header that admits nothing concerns the gate only in that it must not replace a due 415/400: a body-less or admitted request carrying such a header may be answered 406 with nothing run (the 406 clause itself is C07's)",
+			"an operation that declares no body parameter is gated like any other (the statement quantifies over requests that carry a body); whether its body is decoded at all is not judged, only that nothing but the consumer of its media type decodes it",
 		},
 		MinNontrivial: 300,
 		Run:           run,
@@ -66,6 +68,27 @@ type Case struct {
 	Payload    mon.Q    `json:"payload"`          // body bytes (ignored for body-less modes)
 	Shape      string   `json:"shape,omitempty"`  // generator label of the consumes shape (coverage only)
 	Intent     string   `json:"intent,omitempty"` // generator label of the header category (coverage only)
+	// HasAccept/Accept: the request carries this Accept header line (every operation produces application/json only)
+	HasAccept bool  `json:"has_accept,omitempty"`
+	Accept    mon.Q `json:"accept,omitempty"`
+	// NoBodyParam: the operation declares no parameter at all (no "in: body" parameter)
+	NoBodyParam bool `json:"no_body_param,omitempty"`
+}
+
+// acceptClass tells whether the Accept header admits the one type every operation produces:
+// absent | acceptable | unacceptable | unjudged (outside the grammar C07's reference is defined on).
+func acceptClass(c *Case) string {
+	if !c.HasAccept {
+		return "absent"
+	}
+	p := accept.ParseStrict([]string{string(c.Accept)}, true)
+	if !p.Judged {
+		return "unjudged"
+	}
+	if accept.Select(true, p.Ranges, []string{"application/json"}, true).None {
+		return "unacceptable"
+	}
+	return "acceptable"
 }
 
 var methods = []string{"GET", "PUT", "POST", "DELETE", "OPTIONS", "HEAD", "PATCH"}
@@ -325,10 +348,16 @@ type expectation struct {
 	emptyList bool   // consumes ∪ {default} is empty
 	consumer  string // tag of the consumer registered for mt ("" = none registered under that key)
 	verdict   string // skip | accept | noreg | refuse415 | refuse400 | grey
+	accept    string // acceptClass of the request
+}
+
+// notAcceptable: the request may legitimately be stopped by the response-format check (C07's 406 clause).
+func (e *expectation) notAcceptable() bool {
+	return e.accept == "unacceptable" || e.accept == "unjudged"
 }
 
 func expect(c *Case) expectation {
-	e := expectation{hasBody: bodyModeHasBody(c.BodyMode)}
+	e := expectation{hasBody: bodyModeHasBody(c.BodyMode), accept: acceptClass(c)}
 	e.kind, e.mt = classifyCT(c.HasCT, string(c.CT))
 	e.emptyList = len(c.Consumes) == 0 && c.Default == ""
 	if e.mt != "" {
@@ -418,7 +447,15 @@ func (b *recBinder) BindRequest(r *http.Request, route *middleware.MatchedRoute)
 		b.e.cur.RouteCons = consumerTag(route.Consumer)
 	}
 	b.e.mu.Unlock()
-	if runtime.HasBody(r) {
+	declaresBody := false
+	if route.Operation != nil {
+		for _, p := range route.Operation.Parameters {
+			if p.In == "body" {
+				declaresBody = true
+			}
+		}
+	}
+	if declaresBody && runtime.HasBody(r) {
 		defer r.Body.Close()
 		if route.Consumer == nil {
 			return errors.New(http.StatusInternalServerError, "binder: body present but route.Consumer is nil")
@@ -438,6 +475,7 @@ func (b *recBinder) BindRequest(r *http.Request, route *middleware.MatchedRoute)
 
 type opSpec struct {
 	consumes []string
+	noParam  bool // the operation declares no parameter (no body parameter)
 }
 
 // buildEnv creates a description with operations /o<i> (all seven methods each), op i consuming
@@ -450,10 +488,12 @@ func buildEnv(ops []opSpec, global bool, def string, registered []string) (*env,
 		for _, mth := range methods {
 			o := map[string]interface{}{
 				"operationId": fmt.Sprintf("o%d%s", i, strings.ToLower(mth)),
-				"parameters": []interface{}{map[string]interface{}{
+				"responses":   map[string]interface{}{"200": map[string]interface{}{"description": "ok"}},
+			}
+			if !op.noParam {
+				o["parameters"] = []interface{}{map[string]interface{}{
 					"name": "body", "in": "body", "schema": map[string]interface{}{"type": "object"},
-				}},
-				"responses": map[string]interface{}{"200": map[string]interface{}{"description": "ok"}},
+				}}
 			}
 			if !global && len(op.consumes) > 0 {
 				o["consumes"] = op.consumes
@@ -596,6 +636,9 @@ func memRequest(c *Case, path string) *http.Request {
 	if c.HasCT {
 		r.Header["Content-Type"] = []string{string(c.CT)}
 	}
+	if c.HasAccept {
+		r.Header["Accept"] = []string{string(c.Accept)}
+	}
 	switch c.BodyMode {
 	case "cl":
 		r.ContentLength = int64(len(p))
@@ -642,6 +685,9 @@ func (e *env) exec(c *Case, opIdx int, entry int) *observation {
 		}
 		if c.HasCT {
 			req.Header["Content-Type"] = []string{string(c.CT)}
+		}
+		if c.HasAccept {
+			req.Header["Accept"] = []string{string(c.Accept)}
 		}
 		if entry == 2 {
 			req.Header.Set("X-Verif-Entry", "2")
@@ -696,21 +742,36 @@ func (e *expectation) admitFeature(c *Case) string {
 	f := e.admit
 	if f == "exact" || f == "default" {
 		if e.kind == hAbsent {
-			return f + "/no-content-type-header"
+			return f + "/no-content-type-header" + e.extraFeature(c)
 		}
 		f += "/" + spelling(string(c.CT))
 	}
-	return f
+	return f + e.extraFeature(c)
 }
 
 func (e *expectation) refuseFeature(c *Case) string {
+	f := ""
 	switch {
 	case e.emptyList:
-		return "empty-consumes-no-default"
+		f = "empty-consumes-no-default"
 	case e.kind == hAbsent:
-		return "no-content-type-header"
+		f = "no-content-type-header"
+	default:
+		f = "header-" + spelling(string(c.CT))
 	}
-	return "header-" + spelling(string(c.CT))
+	return f + e.extraFeature(c)
+}
+
+// extraFeature names the input features beyond the original workload (old signatures stay as they were).
+func (e *expectation) extraFeature(c *Case) string {
+	f := ""
+	if e.notAcceptable() {
+		f += "+unacceptable-accept"
+	}
+	if c.NoBodyParam {
+		f += "+operation-without-body-parameter"
+	}
+	return f
 }
 
 func sameBytes(seen []mon.Q, payload mon.Q) bool {
@@ -750,19 +811,23 @@ func judgeEntry(c *Case, e *expectation, o *observation) []finding {
 				feat += "-admitted"
 			}
 		}
-		feat += "/" + c.BodyMode
+		feat += "/" + c.BodyMode + e.extraFeature(c)
 		if ran {
 			add("consumer-ran-without-body", feat, "consumers %v ran although the request carries no body", o.Consumers)
 		}
 		switch {
 		case o.Status == 415 || o.Status == 400:
 			add(fmt.Sprintf("bodyless-gated-%d", o.Status), feat, "a request without a body was refused with %d (%s)", o.Status, o.Err)
+		case e.notAcceptable() && o.Status == http.StatusNotAcceptable && o.Handler == 0 && !ran:
+			// stopped by the response-format check, not by the gate
 		case o.Handler != 1 || o.Status/100 != 2:
 			add("bodyless-not-served", feat, "a request without a body: status %d, handler runs %d (%s)", o.Status, o.Handler, o.Err)
 		}
 	case "accept":
 		feat := e.admitFeature(c)
 		switch {
+		case e.notAcceptable() && !ran && o.Handler == 0 && o.Status == http.StatusNotAcceptable:
+			// admitted by the gate, stopped by the response-format check: nothing ran
 		case !ran && o.Handler == 0 && o.Status == 415:
 			add("admitted-refused-415", feat, "media type %q is admitted (%s) but the answer is 415 (%s)", e.mt, e.admit, o.Err)
 		case !ran && o.Handler == 0 && o.Status == 400:
@@ -774,6 +839,8 @@ func judgeEntry(c *Case, e *expectation, o *observation) []finding {
 		default:
 			switch {
 			case len(o.Consumers) == 1 && o.Consumers[0] == e.consumer:
+			case !ran && c.NoBodyParam:
+				// nothing asks for the body of an operation without body parameter
 			case !ran:
 				add("admitted-not-consumed", feat, "handler ran (status %d) but no consumer decoded the body of admitted type %q", o.Status, e.mt)
 			case len(o.Consumers) > 1 && allEqual(o.Consumers, e.consumer):
@@ -800,7 +867,7 @@ func judgeEntry(c *Case, e *expectation, o *observation) []finding {
 		what, want := "non-admitted", 415
 		if e.verdict == "refuse400" {
 			what, want = "malformed", 400
-			feat = "malformed-header"
+			feat = "malformed-header" + e.extraFeature(c)
 		}
 		if ran {
 			add("consumer-ran-for-"+what, feat, "consumers %v ran for %s Content-Type %q", o.Consumers, what, string(c.CT))
@@ -883,14 +950,14 @@ func judge(c *Case, e *expectation, o1, o2 *observation) []finding {
 	}
 	// agreement of the two entry points
 	if o1.Transport == "" && o2.Transport == "" && !o1.NoRoute && !o2.NoRoute && o1.Panic == "" && o2.Panic == "" {
-		feat := e.verdict
+		feat := e.verdict + e.extraFeature(c)
 		if e.verdict == "accept" || e.verdict == "noreg" {
 			feat = e.admitFeature(c)
 		}
 		c1, c2 := outcomeClass(o1), outcomeClass(o2)
 		if c1 != c2 {
 			out = append(out, finding{"entry-points-disagree", feat, fmt.Sprintf("untyped pipeline: %s (%s); BindValidRequest: %s (%s)", c1, o1.Err, c2, o2.Err)})
-		} else if c1 == "accepted" && e.hasBody {
+		} else if c1 == "accepted" && e.hasBody && !c.NoBodyParam {
 			// same consumer picked: what entry 1 ran vs what entry 2 found in route.Consumer
 			t1 := "<none>"
 			if len(o1.Consumers) > 0 {
@@ -913,7 +980,7 @@ func fingerprint(c *Case, e *expectation) string {
 	if c.HasCT {
 		sp = spelling(string(c.CT))
 	}
-	return strings.Join([]string{c.Shape, strconv.FormatBool(c.Default != ""), strconv.FormatBool(c.Global), e.verdict, e.admit, e.kind.String(), sp, c.BodyMode, c.Method}, "|")
+	return strings.Join([]string{c.Shape, strconv.FormatBool(c.Default != ""), strconv.FormatBool(c.Global), e.verdict, e.admit, e.kind.String(), sp, c.BodyMode, c.Method, e.accept, strconv.FormatBool(c.NoBodyParam)}, "|")
 }
 
 func shapeOf(consumes []string) string {
@@ -961,6 +1028,13 @@ func evalOn(m *mon.M, e *env, opIdx int, c *Case) ([]finding, *observation, *obs
 	m.Class("status:" + strconv.Itoa(o1.Status))
 	m.Class("hdr:" + ex.kind.String())
 	m.Class("body:" + c.BodyMode)
+	m.Class("accept-header:" + ex.accept)
+	if c.NoBodyParam {
+		m.Class("operation-without-body-parameter:" + ex.verdict)
+	}
+	if ex.accept != "absent" {
+		m.Class("expect:" + ex.verdict + "/accept-" + ex.accept)
+	}
 	if ex.verdict == "accept" {
 		m.Class("admitted:" + ex.admit)
 		if len(o1.Consumers) == 1 {
@@ -982,7 +1056,7 @@ type sample struct {
 
 // runCase executes one case in isolation (its own description with the single operation) and reports.
 func runCase(m *mon.M, c *Case) int {
-	e, err := buildEnv([]opSpec{{consumes: c.Consumes}}, c.Global, c.Default, c.Registered)
+	e, err := buildEnv([]opSpec{{consumes: c.Consumes, noParam: c.NoBodyParam}}, c.Global, c.Default, c.Registered)
 	if err != nil {
 		m.Class("env-build-failed")
 		return 0
@@ -990,10 +1064,17 @@ func runCase(m *mon.M, c *Case) int {
 	defer e.close()
 	fs, o1, o2 := evalOn(m, e, 0, c)
 	for _, f := range fs {
-		m.Violate(f.code+"/"+f.feature, f.text+fmt.Sprintf("\nconsumes=%q default=%q method=%s body=%s content-type=%s\nuntyped: %+v\nbind_valid_request: %+v",
-			c.Consumes, c.Default, c.Method, c.BodyMode, ctText(c), *o1, *o2), c)
+		m.Violate(f.code+"/"+f.feature, f.text+fmt.Sprintf("\nconsumes=%q default=%q method=%s body=%s content-type=%s accept=%s body-parameter=%v\nuntyped: %+v\nbind_valid_request: %+v",
+			c.Consumes, c.Default, c.Method, c.BodyMode, ctText(c), acceptText(c), !c.NoBodyParam, *o1, *o2), c)
 	}
 	return len(fs)
+}
+
+func acceptText(c *Case) string {
+	if !c.HasAccept {
+		return "<absent>"
+	}
+	return strconv.Quote(string(c.Accept))
 }
 
 func ctText(c *Case) string {
